@@ -438,6 +438,9 @@ func c06Run(c *caseCtx, g *genReq) {
 	{
 		p := deepCopyM(g.M)
 		m := math.Ldexp(1, c.rng.Intn(9)-3)
+		if c.rng.Intn(2) == 0 {
+			m = math.Ldexp(1, c.rng.Intn(121)-60) // any power of two: 2^-60 .. 2^60
+		}
 		for _, e := range p["methodParameters"].(M)["electreCriteria"].(M) {
 			e.(M)["k"] = e.(M)["k"].(float64) * m
 		}
@@ -484,7 +487,7 @@ func init() {
 		id: "C06",
 		rule: "C05's generator with planted dominated / identical alternatives; per instance: every dominating pair (a >= b on all criteria) must satisfy asc(a)<=asc(b), " +
 			"desc(a)<=desc(b), b in links(a); identical alternatives identical indices; 2 random permutations of knownAlternatives/choseToMake and one scaling of all k by " +
-			"2^m (m in -3..5) must leave every index unchanged. Only these relations are judged here (no reference model). Non-trivial = >=3 alternatives; distinct = " +
+			"2^m (m in -60..60) must leave every index unchanged. Only these relations are judged here (no reference model). Non-trivial = >=3 alternatives; distinct = " +
 			"distinct (#alternatives, #criteria, index maps).",
 		assumptions: []string{"scaling by a power of two is exact in binary floating point, so no tolerance is needed"},
 		streams: []*stream{
